@@ -2,8 +2,16 @@
 
 package zzsimrt
 
+import "unsafe"
+
 // RaceBuild reports whether the binary was built with the race detector.
 const RaceBuild = false
 
 func raceOff() {}
 func raceOn()  {}
+
+// RaceErrors returns the number of data races the detector has reported so far in this process.
+func RaceErrors() int { return 0 }
+
+func raceReleaseMerge(p unsafe.Pointer) {}
+func raceAcquire(p unsafe.Pointer)      {}
